@@ -162,6 +162,19 @@ def check_constants(ctx, c, key):
                      "month %d share %.9g expected %.9g" % (m, f[m], frac[m]), dict(kind="direct", constants=c))
     elif f.max() != 0:
         ctx.fail("greenhouse-share-nonzero-without-greenhouses", "max %.6g" % f.max(), dict(kind="direct", constants=c))
+    # what the covered share of cropland yields: area x (average monthly outdoor yield per hectare x the year's ratio x gain), both wastes
+    total = c["INITIAL_GLOBAL_CROP_AREA"] * c["INITIAL_CROP_AREA_FRACTION"]
+    ghx, _ = R.greenhouse_output(c["BASELINE_CROP_KCALS"], c["SEASONALITY"], [c["RATIO_CROPS_YEAR%d" % i] for i in range(1, 11)], c["COUNTRY_CODE"], n,
+                                 c["OG_USE_BETTER_ROTATION"], c["ROTATION_IMPROVEMENTS"]["POWER_LAW_IMPROVEMENT"], total,
+                                 c.get("GREENHOUSE_AREA_MULTIPLIER", 0.0), c["DELAY"].get("GREENHOUSE_MONTHS", 0), c.get("GREENHOUSE_GAIN_PCT", 0),
+                                 c["WASTE_DISTRIBUTION"]["CROPS"], c["WASTE_RETAIL"], c["ADD_GREENHOUSES"])
+    if len(ghk) != n or not np.all(np.isfinite(ghk)) or np.any(ghk < 0):
+        ctx.fail("series-not-finite-nonnegative-one-per-month", "greenhouse series malformed", dict(kind="direct", constants=c))
+    okg = close(ghk, ghx)
+    if not np.all(okg):
+        m = int(np.argmin(okg))
+        ctx.fail("greenhouse-output-differs-from-area-times-yield", "month %d: %.9g, documented function gives %.9g" % (m, ghk[m], ghx[m]),
+                 dict(kind="direct", constants=c))
     return prod
 
 
@@ -226,7 +239,7 @@ def check_e2e(ctx, iso3, options):
         with quiet():
             cp, tcp, out = model.first_round(iso3, options)
     except (AssertionError, SystemExit, Exception) as e:  # completion is C16's subject
-        ctx.abort(type(e).__name__)
+        model.abort_or_supply_failure(ctx, e, key)
         return None
     tc = out[1]
     prod = np.asarray(tc["outdoor_crops"].production.kcals, float)
